@@ -616,6 +616,11 @@ class Sim:
                 pass
         p.files.clear()
         p.neutralise_locks()
+        ls = self.extra.get("flocks")
+        if ls:
+            for k, v in list(ls.items()):
+                if v[0] == p.name:
+                    del ls[k]           # the kernel dropped the dead process's locks with its fds
         # every parked actor of p will raise SimDead when it next gets the baton;
         # sleeping/blocked ones are made ready so they can die promptly.
         for a in self.actors:
